@@ -1055,6 +1055,8 @@ class Enumerator:
             # ordered comparison, canonical orientation a < b / a <= b
             if isinstance(l, ast.Call) and isinstance(l.func, ast.Name) and l.func.id == "len" and isinstance(r, ast.Constant) and r.value == 0 and isinstance(op, ast.Gt):
                 res = self._decide(p, "truthy:" + U(l.args[0]))
+            elif isinstance(r, ast.Call) and isinstance(r.func, ast.Name) and r.func.id == "len" and isinstance(l, ast.Constant) and l.value == 0 and isinstance(op, ast.Lt) and not isinstance(l.value, bool):
+                res = self._decide(p, "truthy:" + U(r.args[0]))  # 0 < len(x)  (the normalised spelling of len(x) > 0)
             else:
                 cl, cr = self._const(l), self._const(r)
                 if cl is not None and cr is not None and cl[0] == cr[0] == "lit":
